@@ -24,7 +24,7 @@ const prop = "C04"
 
 func TestMain(m *testing.M) {
 	vkit.Rec(prop).SetLevel("exploration",
-		"the full product {operator-authorized, activation-token, wrapper, re-wrapped} x {in-memory, file, store-once} x storage wrapper {off,on} x node-side storage wrapper {off,on} x root configuration {default, both roots valid at once} is enumerated once (exhaustive), then rapid draws random application state / application-specific params and node-side substitutions (other key, altered server key, echoed nonce empty / truncated / extended / bit-flipped / another node's, fields swapped with another node's response). The response, every certificate and the stored record are PARSED and compared field by field; substituted responses must be refused and leave node storage unchanged. Non-trivial = at least one wrapper, a non-in-memory back end or a substitution; distinct = configuration tuple (+ substitution).")
+		"the full product {operator-authorized, activation-token, wrapper, re-wrapped} x {in-memory, file, store-once} x storage wrapper {off,on} x node-side storage wrapper {off,on} x root configuration {default, both roots valid at once} is enumerated once (exhaustive), then rapid draws random application state / application-specific params and node-side substitutions (other key, altered server key, echoed nonce empty / truncated / extended / bit-flipped / another node's, fields swapped with another node's response). The response, every certificate and the stored record are PARSED and compared field by field, and the stored credentials complete a real handshake with a listener on the same server; substituted responses must be refused and leave node storage unchanged. Non-trivial = at least one wrapper, a non-in-memory back end or a substitution; distinct = configuration tuple (+ substitution).")
 	vkit.Main(m)
 }
 
@@ -253,6 +253,24 @@ func enroll(t vkit.TB, c config, state, params *structpb.Struct, subst string) b
 	}
 	if err != nil || len(cfgs) != wantCfgs {
 		return fail("client-configs", "ClientConfigs returned %d configurations (err=%v), want %d", len(cfgs), err, wantCfgs)
+	}
+	// ... and they really work: a real handshake against a listener on the same server
+	rig := vkit.NewRig(w, vkit.RigConfig{})
+	conn, derr := rig.Dial(a)
+	outs := rig.Sync()
+	authd := false
+	for _, o := range outs {
+		authd = authd || o.Authenticated()
+		if o.Conn != nil {
+			_ = o.Conn.Close()
+		}
+	}
+	if conn != nil {
+		_ = conn.Close()
+	}
+	rig.Close()
+	if derr != nil || !authd {
+		return fail("credentials-do-not-connect", "the enrolled node could not authenticate to its own server with the stored credentials: %v (authenticated=%v)", derr, authd)
 	}
 	nontrivial := c.StorageWrap || c.NodeWrap || c.Backend != "inmem" || subst != "" || c.Flow == "wrapper"
 	cc := c
